@@ -12,13 +12,17 @@
 (***************************************************************************)
 EXTENDS Integers, Sequences, FiniteSets, TLC
 
-CONSTANTS MAXR, AT, Horizon,
+CONSTANTS MAXR, AT, Horizon, QueuedMs,
           RespStopsWait     \* a response that arrives before the ACK completes the call (RFC 7252 4.2 / 5.2.2 reading)
 
-S0 == [clock |-> 0, entry |-> TRUE, retr |-> 0, copies |-> <<0>>,   \* the first copy goes out at time 0
+\* The request may first have waited behind the NSTART limit (queued > 0, in milliseconds of real time): the clock of
+\* the exchange starts at its FIRST TRANSMISSION (the entry's start stamp is taken when the entry is stored, after the
+\* slot was acquired), so the time spent queued changes nothing below.
+SQ(q) == [queued |-> q, clock |-> 0, entry |-> TRUE, retr |-> 0, copies |-> <<0>>,   \* the first copy goes out at time 0
        pc |-> "waitAck",            \* waitAck | waitResp | ok | err
        got |-> FALSE,               \* a response sits in the call's one-slot channel
        acked |-> FALSE, rst |-> FALSE, cancelled |-> FALSE, exhausted |-> FALSE]
+S0 == SQ(0)
 
 Waiting(s) == s.pc \in {"waitAck", "waitResp"}
 Tick(s, t) ==
